@@ -262,6 +262,11 @@ fn binary_checks(a: &(SlotMap, Ref), b: &(SlotMap, Ref), fails: &mut Vec<(String
     }
     // compose_fresh: same keys as a; covered positions agree; uncovered get brand-new fresh slots
     let before = Slot::fresh();
+    // a user slot spelled exactly like the NEXT fresh slot: the fill-ins must not reuse it
+    let user_next = {
+        let k: u32 = before.to_string()[2..].parse().unwrap_or(0);
+        Slot::named(&format!("f{}", k + 1))
+    };
     let cf = a.0.compose_fresh(&b.0);
     let ks: BTreeSet<Slot> = cf.keys().iter().copied().collect();
     if ks != a.1.keys().copied().collect() {
@@ -277,7 +282,7 @@ fn binary_checks(a: &(SlotMap, Ref), b: &(SlotMap, Ref), fails: &mut Vec<(String
                 }
                 None => {
                     let f = cf.get(*x).unwrap();
-                    if !is_fresh_kind(f) || f <= before || !fresh_seen.insert(f) {
+                    if !is_fresh_kind(f) || f <= before || f == user_next || !fresh_seen.insert(f) {
                         fails.push(("compose".into(), format!("compose_fresh not new {ctx}"), format!("{:?} (watermark {:?})", cf, before)));
                     }
                 }
